@@ -448,12 +448,13 @@ FACT_THEOREMS = {
     "pebble": "theorem source_pebble_writes_are_synchronous : pebbleOk pebbleCalls noSyncMentions = true := by decide +kernel",
     "signal": "theorem source_writers_signal : writersSignal writers = true := by decide +kernel",
     "notify": "theorem source_writers_notify : writersNotify writers = true := by decide +kernel",
+    "patch": "theorem source_patch_table_is_the_model_table : patchOk patchOps patchOpTypes patchDecodeShape = true := by decide +kernel",
 }
 FACTS_OF = {
     "C01": ["consts", "dispatch"], "C02": ["dispatch"], "C03": ["consts", "dispatch"], "C04": ["dispatch"],
     "C05": ["exec"], "C06": ["exec"], "C07": ["exec"], "C08": ["consts", "dispatch"], "C09": ["signal", "dispatch"],
     "C10": ["dispatch"], "C11": ["consts"], "C12": ["consts"], "C13": ["pebble"], "C14": ["consts"], "C15": ["dispatch"],
-    "C16": ["dispatch", "consts"], "C17": ["consts", "dispatch"], "C18": ["dispatch"], "C19": ["dispatch"], "C20": ["notify", "consts"],
+    "C16": ["dispatch", "consts"], "C17": ["consts", "dispatch"], "C18": ["dispatch"], "C19": ["dispatch"], "C20": ["notify", "consts", "patch"],
 }
 
 
